@@ -88,12 +88,17 @@ func symxC11B() {
 		c.failWrite = true
 		f.connect(c, symxConnectBytes("cid", 30, "", nil, nil, 0, false))
 		rt.Quiesce()
-		for _, payload := range rt.Drain(b.bq) {
+		payloads := rt.Drain(b.bq)
+		for _, payload := range payloads {
 			b2.state.Distributor().NotifyMsg(payload)
 		}
 		rt.Assert(b.local.Get("sid") == nil, "C11.removed_from_registry")
 		rt.Assert(c.isClosed(), "C11.connection_closed")
 		rt.Assert(len(b.state.SessionMetadatas().All()) == 0 && len(b2.state.SessionMetadatas().All()) == 0, "C11.session_record_gone_everywhere")
+		b3 := symxNewBroker(3, 1)
+		symxGossip(payloads, b, b3)
+		rt.Assert(len(b3.state.SessionMetadatas().All()) == 0, "C11.session_record_gone_on_a_peer_hearing_the_gossip_late")
+		b3.cancel()
 		b.cancel()
 		b2.cancel()
 		rt.Quiesce()
@@ -109,8 +114,10 @@ func symxC11B() {
 		rt.Quiesce()
 	}
 	rt.Assert(len(b.state.Subscriptions().All()) == nf, "C11.subscriptions_recorded")
+	var heard [][]byte
 	deliver := func() {
 		for _, payload := range rt.Drain(b.bq) {
+			heard = append(heard, payload)
 			b2.state.Distributor().NotifyMsg(payload)
 		}
 	}
@@ -157,6 +164,13 @@ func symxC11B() {
 	rt.Assert(len(b.state.Subscriptions().All()) == 0, "C11.subscriptions_gone_locally")
 	rt.Assert(len(b2.state.SessionMetadatas().All()) == 0, "C11.session_record_gone_on_peer")
 	rt.Assert(len(b2.state.Subscriptions().All()) == 0, "C11.subscriptions_gone_on_peer")
+	// a third node hears the whole gossip only now: out of order, or in part and then repaired
+	// by a push/pull - the ended session must leave no trace there either
+	b3 := symxNewBroker(3, 1)
+	symxGossip(heard, b, b3)
+	rt.Assert(len(b3.state.SessionMetadatas().All()) == 0, "C11.session_record_gone_on_a_peer_hearing_the_gossip_late")
+	rt.Assert(len(b3.state.Subscriptions().All()) == 0, "C11.subscriptions_gone_on_a_peer_hearing_the_gossip_late")
+	b3.cancel()
 	// nothing published afterwards is written to it
 	written := len(c.out)
 	pubS, pubC := b.session("pub", "cp", "m", 30)
